@@ -2,7 +2,7 @@
    assembly, BufRead::lines, find_and_output with both colour arms, prefixes); clap, termcolor and
    the I/O are outside and observed on the real dev and release binaries by ./check C16. *)
 From DV Require Import Model.Base Model.Nfa Model.BwBuild Model.BwSearch Model.Api Model.Spec
-     Model.Cert Model.Cli Model.Utf8 Proofs.CliProps Proofs.Utf8Props Theory.Utf8Spec Proofs.CliColour.
+     Model.Cert Model.Cli Model.Utf8 Proofs.CliProps Proofs.Utf8Props Theory.Utf8Spec Proofs.CliColour Proofs.TrieInv Proofs.NoPanic Proofs.CliMain.
 Local Open Scope N_scope.
 
 (* "the line contains an occurrence of some pattern", on the property's own vocabulary *)
@@ -69,7 +69,7 @@ Theorem cli_highlight :
   forall prefix line, Forall (fun b => b < 256) line -> has_occ pvs line = true ->
     (forall s e v, occ_at unit pvs line s e v -> is_char_boundary line s = true /\ is_char_boundary line e = true) ->
     find_and_output A true prefix line
-    = Ok (Some (prefix ++ render (covered (occs_of pvs line)) line 0 false [] ++ [10])).
+    = Ok (Some (prefix ++ render (Cli.covered (occs_of pvs line)) line 0 false [] ++ [10])).
 Proof. intros A pvs C prefix line Hb Ho Hbd. exact (find_and_output_colour A pvs C prefix line Hb Ho Hbd). Qed.
 Print Assumptions cli_highlight.
 
@@ -91,7 +91,7 @@ Theorem cli_highlight_utf8 :
     bw_cert_ok ueqb A (bpvs unit cpvs) = true ->
   forall prefix cs, Forall scalar cs -> has_occ (bpvs unit cpvs) (encode_utf8 cs) = true ->
     find_and_output A true prefix (encode_utf8 cs)
-    = Ok (Some (prefix ++ render (covered (occs_of (bpvs unit cpvs) (encode_utf8 cs))) (encode_utf8 cs) 0 false [] ++ [10])).
+    = Ok (Some (prefix ++ render (Cli.covered (occs_of (bpvs unit cpvs) (encode_utf8 cs))) (encode_utf8 cs) 0 false [] ++ [10])).
 Proof.
   intros A cpvs Hne Hsc C prefix cs Hcs Ho.
   apply (find_and_output_colour A (bpvs unit cpvs) C prefix (encode_utf8 cs)); [|exact Ho|exact (utf8_occurrences_on_boundaries cpvs cs Hne Hsc Hcs)].
@@ -112,3 +112,66 @@ Example c16_highlight_observed :
   | _ => False
   end.
 Proof. vm_compute. reflexivity. Qed.
+
+(* ---- THE WHOLE PROGRAM, NO CERTIFICATE HYPOTHESIS ---------------------------------------------------
+   cli_main = pattern list assembly (-f file lines, then the pieces of -p, empty ones skipped),
+   DoubleArrayAhoCorasick::new, then the line loop over standard input or over every FILE argument.
+   For EVERY pattern list and every input: if the list is not a valid collection the program ends
+   with status 1 and prints nothing; otherwise it prints [cli_expected] -- for each input line that
+   contains an occurrence of some pattern (has_occ, has_occ_means_occurrence), in order, its
+   file-name / line-number prefix, the line itself (with colour: cut into maximal runs, red exactly
+   on the bytes covered by an occurrence, rendering_is_the_coloured_line), LF; nothing for other
+   lines -- and ends with status 0 (or the builder refuses the collection as too large: status 1).
+   Never Panic, UB or OutOfFuel.  Hypotheses: patterns and lines are bytes; total pattern length
+   below 2^30; with colour, occurrences lie on character boundaries (cli_main_on_utf8 discharges
+   it for UTF-8). *)
+Theorem daacfind_prints_exactly_the_matching_lines :
+  forall (fl : cli_flags) (pfile pstr : option (list N)) (stdin : list N) (files : list (list N * list N)),
+  let pats := cli_patterns pfile pstr in
+  (forall p, In p pats -> Forall (fun b => b < 256) p) -> 4 * plain_len pats <= U32_MAX - 1 ->
+  inputs_ok (upvs pats) (cf_color fl) stdin files ->
+  match spec_build_error pats with
+  | Some _ => cli_main fl pfile pstr stdin files = Ok ([], 1)
+  | None => cli_main fl pfile pstr stdin files = Ok (cli_expected (upvs pats) fl stdin files, 0)
+            \/ cli_main fl pfile pstr stdin files = Ok ([], 1)
+  end.
+Proof. exact cli_main_lemma. Qed.
+Print Assumptions daacfind_prints_exactly_the_matching_lines.
+
+(* the same on UTF-8 arguments and inputs (what the command line and BufRead::lines hand the
+   program): pattern file, pattern string, standard input and file contents are the UTF-8 encodings
+   of arbitrary scalar-value texts; no side condition is left *)
+Theorem daacfind_on_utf8_input :
+  forall (fl : cli_flags) (pfile pstr : option (list N)) (stdin : list N) (files : list (list N * list N)),
+  (forall f, pfile = Some f -> Forall scalar f) -> (forall s, pstr = Some s -> Forall scalar s) ->
+  Forall scalar stdin -> Forall (fun f => Forall scalar (snd f)) files ->
+  let pats := map encode_utf8 (ccli_patterns pfile pstr) in
+  let bfiles := map (fun f => (fst f, encode_utf8 (snd f))) files in
+  let run := cli_main fl (option_map encode_utf8 pfile) (option_map encode_utf8 pstr) (encode_utf8 stdin) bfiles in
+  4 * plain_len pats <= U32_MAX - 1 ->
+  match spec_build_error pats with
+  | Some _ => run = Ok ([], 1)
+  | None => run = Ok (cli_expected (upvs pats) fl (encode_utf8 stdin) bfiles, 0) \/ run = Ok ([], 1)
+  end.
+Proof. exact cli_main_utf8_lemma. Qed.
+Print Assumptions daacfind_on_utf8_input.
+
+(* the lines of UTF-8 text are UTF-8 text (LF and CR are ASCII) *)
+Theorem lines_of_utf8_text_are_utf8 :
+  forall cs, Forall scalar cs ->
+    buf_lines (encode_utf8 cs) = map encode_utf8 (cbuf_lines cs) /\ Forall (Forall scalar) (cbuf_lines cs).
+Proof. exact buf_lines_utf8. Qed.
+Print Assumptions lines_of_utf8_text_are_utf8.
+
+(* Non-vacuity: -p "ab\nbc" -n --color=always on two files; the second line of the first file and
+   the only line of the second are printed, prefixes included, covered bytes in red. *)
+Example c16_whole_program_observed :
+  let fl := {| cf_color := true; cf_lineno := true; cf_nofilename := false |} in
+  let files := [([102], [122; 10; 120; 97; 98; 99; 120; 10]); ([103], [98; 99])] in
+  spec_build_error (cli_patterns None (Some [97; 98; 10; 98; 99])) = None
+  /\ cli_main fl None (Some [97; 98; 10; 98; 99]) [] files
+     = Ok (cli_expected (upvs (cli_patterns None (Some [97; 98; 10; 98; 99]))) fl [] files, 0)
+  /\ cli_expected (upvs (cli_patterns None (Some [97; 98; 10; 98; 99]))) fl [] files
+     = [102; 58; 49; 58] ++ ESC_RESET ++ [120] ++ ESC_RED ++ [97; 98; 99] ++ ESC_RESET ++ [120; 10]
+       ++ [103; 58; 48; 58] ++ ESC_RESET ++ ESC_RED ++ [98; 99] ++ ESC_RESET ++ [10].
+Proof. vm_compute. repeat split; reflexivity. Qed.
